@@ -374,6 +374,7 @@ def _wrap_create(cls, name):
         rec.skip = None
         rec.label = "%s.%s" % (type(self).__name__, name)
         rec.result = rec.exc = rec.pre = rec.call = None
+        rec.post = None
         rec.dialect = "create"
         try:
             rec.call = encode_create_call(self, name, args, kw)
@@ -387,6 +388,7 @@ def _wrap_create(cls, name):
         try:
             out = orig(self, *args, **kw)
             rec.result = out
+            rec.post = _read_post(rec, out)
             return out
         except Exception as e:
             rec.exc = type(e).__name__
@@ -420,6 +422,7 @@ def _wrap_setop(cls, name, ctor):
         rec.skip = None
         rec.label = "%s.%s" % ("QueryBuilder" if ctor else "_SetOperation", name)
         rec.result = rec.exc = rec.pre = rec.call = None
+        rec.post = None
         rec.dialect = "setop"
         try:
             if name in SETOP_CTORS:
@@ -456,6 +459,7 @@ def _wrap_setop(cls, name, ctor):
         try:
             out = orig(self, *args, **kw)
             rec.result = out
+            rec.post = _read_post(rec, out)
             return out
         except Exception as e:
             rec.exc = type(e).__name__
@@ -530,6 +534,7 @@ def _wrap_term(cls, name):
         rec.skip = None
         rec.label = "%s.%s" % (type(self).__name__, name)
         rec.result = rec.exc = rec.pre = rec.call = None
+        rec.post = None
         rec.dialect = "term"
         try:
             rec.call = encode_term_call(self, name, args, kw)
@@ -543,6 +548,7 @@ def _wrap_term(cls, name):
         try:
             out = orig(self, *args, **kw)
             rec.result = out
+            rec.post = _read_post(rec, out)
             return out
         except Exception as e:
             rec.exc = type(e).__name__
@@ -557,7 +563,25 @@ _INSTALLED = [False]
 
 
 class _Rec:
-    __slots__ = ("pre", "call", "label", "result", "exc", "skip", "dialect")
+    __slots__ = ("pre", "call", "label", "result", "exc", "skip", "dialect", "post")
+
+
+
+def _read_post(rec, out):
+    """the state of the real result, read right after the call (attributes only): a later call that writes onto an argument
+    (the listed auto-alias findings) must not be mistaken for an effect of this one"""
+    try:
+        if rec.dialect == "create":
+            return d_create(out) if isinstance(out, Q.CreateQueryBuilder) else None
+        if rec.dialect == "setop":
+            return describe.d_setop(out) if isinstance(out, Q._SetOperation) else None
+        if rec.dialect == "term":
+            return describe.d_term(out) if isinstance(out, T.Term) else None
+        return d_state(out) if isinstance(out, Q.QueryBuilder) else None
+    except Unsupported as e:
+        return Unsupported(str(e))
+    except Exception as e:
+        return Unsupported("describe: %s" % type(e).__name__)
 
 
 def _wrap_builder(cls, name):
@@ -574,6 +598,7 @@ def _wrap_builder(cls, name):
         rec.skip = None
         rec.label = "%s.%s" % (type(self).__name__, name)
         rec.result = rec.exc = rec.pre = rec.call = None
+        rec.post = None
         rec.dialect = self.dialect
         try:
             rec.call = encode_call(self, name, args, kw)
@@ -587,6 +612,7 @@ def _wrap_builder(cls, name):
         try:
             out = orig(self, *args, **kw)
             rec.result = out
+            rec.post = _read_post(rec, out)
             return out
         except Exception as e:
             rec.exc = type(e).__name__
@@ -655,6 +681,7 @@ def _wrap_joiner(name):
         rec.skip = skip
         rec.label = "%s.join().%s" % (clsname, name)
         rec.result = rec.exc = None
+        rec.post = None
         rec.pre = pre
         rec.call = None
         rec.dialect = dialect
@@ -689,6 +716,7 @@ def _wrap_joiner(name):
         try:
             out = orig(self, *args, **kw)
             rec.result = out
+            rec.post = _read_post(rec, out)
             return out
         except Exception as e:
             rec.exc = type(e).__name__
@@ -768,7 +796,9 @@ class Recording:
                     if rec.exc is not None:
                         exp = {"exc": rec.exc}
                     elif isinstance(rec.result, T.Term):
-                        req["post"] = describe.d_term(rec.result)
+                        if isinstance(rec.post, Unsupported):
+                            raise rec.post
+                        req["post"] = rec.post
                         exp = {"agree": True}
                     else:
                         continue
@@ -787,7 +817,9 @@ class Recording:
                     if rec.exc is not None:
                         exp = {"exc": rec.exc}
                     elif isinstance(rec.result, Q._SetOperation):
-                        req["post"] = describe.d_setop(rec.result)
+                        if isinstance(rec.post, Unsupported):
+                            raise rec.post
+                        req["post"] = rec.post
                         exp = {"agree": True}
                     else:
                         continue
@@ -806,7 +838,9 @@ class Recording:
                     if rec.exc is not None:
                         exp = {"exc": rec.exc}
                     elif isinstance(rec.result, Q.CreateQueryBuilder):
-                        req["post"] = d_create(rec.result)
+                        if isinstance(rec.post, Unsupported):
+                            raise rec.post
+                        req["post"] = rec.post
                         exp = {"agree": True}
                     else:
                         continue
@@ -825,7 +859,9 @@ class Recording:
                 if rec.exc is not None:
                     exp = {"exc": rec.exc}
                 elif isinstance(rec.result, Q.QueryBuilder):
-                    post = d_state(rec.result)
+                    if isinstance(rec.post, Unsupported):
+                        raise rec.post
+                    post = rec.post
                     req["post"] = post["q"]
                     exp = {"agree": True, "select_star": post["select_star"], "star_tables": post["star_tables"],
                            "sub_count": post["sub_count"], "return_star": post["return_star"]}
